@@ -49,8 +49,8 @@ static ESmry* mksmry(bool formatted, const char* datafile, const std::vector<std
     return e;
 }
 static int pick_pos() {      // positions around the record-block boundaries and the ends
-    static const int cand[] = { 0, 1, 3, 4, 999, 1000, 1001, 1999, 2000, 2001, NVECT - 2, NVECT - 1 };
-    unsigned long k = verif_concretize(nondet_ulong(), 11); return cand[k] < 0 ? 0 : cand[k] < NVECT ? cand[k] : NVECT - 1;
+    static const int cand[] = { 0, 1, 3, 4, 999, 1000, 1001, 1999, 2000, 2001, 3999, 4000, 4001, NVECT - 2, NVECT - 1 };
+    unsigned long k = verif_concretize(nondet_ulong(), 14); return cand[k] < 0 ? 0 : cand[k] < NVECT ? cand[k] : NVECT - 1;
 }
 extern "C" void h_binary(void) {
     const int p = pick_pos();
